@@ -278,6 +278,13 @@ func (*Ufs) FidDestroy(sfid *SrvFid) {
 	}
 }
 
+// inRoot reports whether the host path p, taken lexically, is the exported
+// root or lies below it.
+func (ufs *Ufs) inRoot(p string) bool {
+	rel, err := filepath.Rel(filepath.Join("/", ufs.Root), filepath.Join("/", p))
+	return err == nil && rel != ".." && !strings.HasPrefix(rel, "../")
+}
+
 func (ufs *Ufs) Attach(req *SrvReq) {
 	if req.Afid != nil {
 		req.RespondError(Enoauth)
@@ -306,7 +313,7 @@ func (ufs *Ufs) Attach(req *SrvReq) {
 
 func (*Ufs) Flush(req *SrvReq) {}
 
-func (*Ufs) Walk(req *SrvReq) {
+func (ufs *Ufs) Walk(req *SrvReq) {
 	fid := ufsFidOf(req.Fid)
 	if fid == nil {
 		req.RespondError(Eunknownfid)
@@ -334,9 +341,13 @@ func (*Ufs) Walk(req *SrvReq) {
 	path := fid.path
 	i := 0
 	for ; i < len(tc.Wname); i++ {
-		p := path + "/" + tc.Wname[i]
+		// an element names one directory entry; ".." at the root is the root
+		p := filepath.Join(path, tc.Wname[i])
+		if !ufs.inRoot(p) {
+			p = path
+		}
 		st, err := os.Lstat(p)
-		if err != nil {
+		if err != nil || strings.Contains(tc.Wname[i], "/") {
 			if i == 0 {
 				req.RespondError(Enoent)
 				return
